@@ -97,6 +97,10 @@ def faults(d, rng):
             yield f"sensor noise for reading {sname}.{r} missing", ekf_ep, lambda dd, sname=sname, r=r: dd.sensor_noises[sname].pop(r)
         yield f"sensor noise for an unknown reading of {sname}", ekf_ep, lambda dd, sname=sname: dd.sensor_noises[sname].__setitem__("ghost_reading", 1.0)
         yield f"sensor noise for an unknown reading instead of {sname}.{rn[-1]} (same size)", ekf_ep, lambda dd, sname=sname, r=rn[-1]: (dd.sensor_noises[sname].pop(r), dd.sensor_noises[sname].__setitem__("ghost_reading", 1.0))
+        # ... and an unknown reading whose name is a PART of a declared one (or of their listing): known means equal to a declared name
+        if len(rn[-1]) >= 2:
+            yield f"sensor noise for {rn[-1][:-1]!r}, a prefix of the reading name, instead of {sname}.{rn[-1]} (same size)", ekf_ep, lambda dd, sname=sname, r=rn[-1]: (dd.sensor_noises[sname].pop(r), dd.sensor_noises[sname].__setitem__(r[:-1], 1.0))
+        yield f"sensor noise for ', ' (part of a listing of the readings) instead of {sname}.{rn[-1]} (same size)", ekf_ep, lambda dd, sname=sname, r=rn[-1]: (dd.sensor_noises[sname].pop(r), dd.sensor_noises[sname].__setitem__(", ", 1.0))
         yield f"no noise for sensor {sname}", ekf_ep, lambda dd, sname=sname: dd.sensor_noises.pop(sname)
     yield "noise for an undeclared sensor", ekf_ep, lambda dd: dd.sensor_noises.__setitem__("ghost_sensor", {"x": 1.0})
     first = sorted(d.sensor_models)[0]
